@@ -91,6 +91,7 @@ class ABADecomposer(Decomposer, ABC):
 
             if abs(math.sin(theta2 / 2)) < ATOL:
                 m = p  # This can be anything, but setting m = p means theta3 == 0, which is better for gate count.
+                theta2 = 0.0
             else:
                 acos_argument = float(b_axis_value) * math.sin(alpha / 2) / math.sin(theta2 / 2)
 
